@@ -240,6 +240,10 @@ class CoordinateReference(
         if nc is not None:
             out.append(f"{name}.nc_set_variable({nc!r})")
 
+        nc = self.datum.nc_get_variable(None)
+        if nc is not None:
+            out.append(f"{name}.datum.nc_set_variable({nc!r})")
+
         coordinates = self.coordinates()
         if coordinates:
             out.append(f"{name}.set_coordinates({coordinates})")
